@@ -80,4 +80,27 @@ theorem listing_spec (cfg : Cfg) (d : Decoder) (crc : Checksum) (files : List By
   rw [this.1 x]
   simp
 
+/-- `listSwamps`: the page `[off, off+lim)` of the *sorted* listing (sorting happens before slicing) -/
+def page (sorted : List Bytes) (off lim : Nat) : List Bytes := (sorted.drop off).take lim
+
+/-- consecutive pages tile the listing: nothing is skipped, nothing repeated -/
+theorem page_tiles (sorted : List Bytes) (off lim : Nat) :
+    page sorted off lim ++ sorted.drop (off + lim) = sorted.drop off := by
+  unfold page
+  rw [← List.drop_drop]
+  exact List.take_append_drop lim (sorted.drop off)
+
+/-- what the explorer TUI shows for a realm: everything, or the single page `ListSwamps` hands out
+    (its `Limit` is clamped to 1000 whatever the caller asks for) -/
+def tuiView (cfg : Cfg) (sorted : List Bytes) : List Bytes := if cfg.tuiListsAll then sorted else page sorted 0 1000
+
+theorem tuiView_all (cfg : Cfg) (h : cfg.tuiListsAll = true) (sorted : List Bytes) : tuiView cfg sorted = sorted := by
+  simp [tuiView, h]
+
+/-- a realm with 1001 swamps: one clamped page shows 1000 of them -/
+theorem tuiView_truncates (cfg : Cfg) (h : cfg.tuiListsAll = false) :
+    (tuiView cfg (List.replicate 1001 [])).length = 1000 := by
+  simp only [tuiView, h, Bool.false_eq_true, if_false, page, List.drop_zero, List.length_take, List.length_replicate]
+  decide
+
 end Hv.Storage
